@@ -3,6 +3,19 @@
    task id) writes as many files as the content of its first dependency says (mod 4); a generator
    creates one copy task per file it received. *)
 From Verif Require Import Base.Prelude Base.Graph Model.Sorter Model.Expr Model.Engine Model.EngineRun Model.EngineP.
+From Verif Require Model.Hashing.
+
+(* the name of a generated task: the generator's own name up to "::", then task_t<id>_ *)
+Fixpoint upto_colons (s : list N) : list N :=
+  match s with
+  | 58 :: 58 :: _ => [58; 58]
+  | c :: r => c :: upto_colons r
+  | [] => []
+  end%N.
+
+Definition child_name (rt : task) (id : N) : list N :=
+  (match tnames rt with n :: _ => upto_colons n | [] => [] end)
+  ++ [116; 97; 115; 107; 95; 116]%N ++ Hashing.dec (Z.of_N id) ++ [95]%N.
 
 Definition h_matches (p n : N) : bool := ((10000 + 100 * p <=? n) && (n <? 10000 + 100 * p + 100))%N.
 
@@ -18,8 +31,8 @@ Definition h_children (rt : task) (files : list N) : list ptask :=
   let two := existsb (fun m => eqbL m [2%N]) (tmarks rt) in
   flat_map (fun f : N =>
     let k := (f - 10000)%N in
-    mkPT (mkTask (20000 + k)%N (tsrc rt) [f] [(30000 + k)%N] [] None false [] false 0%Z [] []) [] [] false false ::
-    (if two then [mkPT (mkTask (40000 + k)%N (tsrc rt) [(30000 + k)%N] [(50000 + k)%N] [] None false [] false 0%Z [] []) [] [] false false]
+    mkPT (mkTask (20000 + k)%N (tsrc rt) [f] [(30000 + k)%N] [] None false [] false 0%Z [child_name rt (20000 + k)%N] []) [] [] false false ::
+    (if two then [mkPT (mkTask (40000 + k)%N (tsrc rt) [(30000 + k)%N] [(50000 + k)%N] [] None false [] false 0%Z [child_name rt (40000 + k)%N] []) [] [] false false]
      else [])) files.
 
 Inductive phop :=
